@@ -21,7 +21,7 @@ ISOLATE = "chunk"       # every chunk of runs in a forked child of a pristine wo
                         # deterministic function of the runs before it in the same chunk (see runner.run_history_iso)
 SHRINK_LISTS = ("ops",)
 PROBES = {"C03": ["history>=1000", "history>=10000", "act4:w=0", "float32", "batched", "scale-steered",
-                  "assoc", "act-compose", "identity", "inverse", "reinit-from-identity", "logscale>8", "identity_-through-view:[::2]", "identity_-through-view:[:, 0]", "operand:expanded", "operand:broadcast", "operand:non-contiguous", "operand:deepcopied", "translation-rebased", "operand:exact-half-turn", "act-operator-forms", "act:large-cloud", "large-batch-products"]}
+                  "assoc", "act-compose", "identity", "inverse", "reinit-from-identity", "logscale>8", "identity_-through-view:[::2]", "identity_-through-view:[:, 0]", "operand:expanded", "operand:broadcast", "operand:non-contiguous", "operand:deepcopied", "translation-rebased", "operand:exact-half-turn", "act-operator-forms", "act:large-cloud", "large-batch-products", "act:stacked-point-sets"]}
 TS = float(os.environ.get("PPSIM_TOLSCALE", "1"))
 UPDATES = ("mulr", "mull", "inv", "add_", "plus", "retr", "idl", "idr", "reinit", "ident_view")
 PROBE_OPS = ("act3", "act4", "assoc", "actcomp", "access", "invlaw", "actop")
@@ -258,6 +258,8 @@ def execute(plan, prop, out, tr):
                 X = R
             elif op == "inv":
                 R = X.Inv()
+                if not np.isfinite(MX).all():
+                    raise Violation("C03.validity", "op #%d: the element handed to Inv is not finite" % i, i, "validity:finite")
                 want = np.linalg.inv(MX)
                 local(R, want, op, i, np.abs(want).max() * np.linalg.cond(MX.reshape(-1, 4, 4)).max(), drift=True)
                 Mref = np.linalg.inv(Mref)
@@ -391,6 +393,23 @@ def execute(plan, prop, out, tr):
                         raise Violation("C03.act", "op #%d X %s p on a cloud of %d %d-vectors differs from matrix multiplication by "
                                         "%.3e" % (i, nm, k_, d_, e), i, "actop:" + nm)
                 out.probe("act-operator-forms")
+                # a stack of M point sets broadcast against the batch of transforms (leading axis added on the points only;
+                # M equal to the batch size is the coincidence in which a wrong alignment still has a legal shape)
+                M_ = (bs[0] if bs else 2) if (i // 2) % 2 == 0 else 3
+                stk = rng.randn(s, ("g", i, "stack"), (M_,) + bs + (d_,), dtype, 2.0)
+                want = np.einsum("...ij,m...j->m...i", MX if d_ == 4 else MX[..., :3, :3], npd(stk))
+                if d_ == 3:
+                    want = want + MX[None, ..., :3, 3]
+                for nm, got in (("@", npd(X @ stk)), ("*", npd(X * stk)), ("Act", npd(X.Act(stk)))):
+                    if got.shape != want.shape:
+                        raise Violation("C03.act", "op #%d X %s p on a stack of %d point sets (points %s, transforms %s) returned "
+                                        "shape %s, expected %s" % (i, nm, M_, tuple(stk.shape), tuple(X.shape), got.shape, want.shape), i, "actop:stack-shape")
+                    e = np.abs(got - want).max()
+                    if not e <= CP * eps * nX * (1 + np.abs(npd(stk)).max()):
+                        raise Violation("C03.act", "op #%d X %s p on a stack of %d point sets broadcast against the transforms "
+                                        "(points %s, transforms %s) differs from matrix multiplication by %.3e" %
+                                        (i, nm, M_, tuple(stk.shape), tuple(X.shape), e), i, "actop:stack:" + nm)
+                out.probe("act:stacked-point-sets")
             elif op == "assoc":
                 Y, Z = grp(i, "y"), grp(i, "z")
                 L, Rr = npd((X @ Y) @ Z), npd(X @ (Y @ Z))
